@@ -548,12 +548,37 @@ func c15corpus() []*c15case {
 func runC15(tier string, seed uint64, o *Out) error {
 	rng := NewRNG(seed)
 	ncases, maxRows := 12000, 14
+	nk, maxPer, np3, np4 := 3000, 13, 40, 12
 	if tier == "thorough" {
 		ncases, maxRows = 150000, 16
+		nk, maxPer, np3, np4 = 20000, 14, 400, 100
 	}
-	cases := c15corpus()
+	type tagged interface {
+		c15runner
+		tags() string
+	}
+	var cases []tagged
+	for _, c := range c15corpus() {
+		cases = append(cases, c)
+	}
 	for i := 0; i < ncases; i++ {
 		cases = append(cases, c15random(rng, maxRows))
+	}
+	// K: classification of every row of every match, late forks, DEFINE over the classification
+	krng := NewRNG(seed)
+	krng.s = krng.Next() ^ 0xC15C1A55
+	for _, c := range c15kcorpus() {
+		cases = append(cases, c)
+	}
+	for i := 0; i < nk; i++ {
+		cases = append(cases, c15krandom(krng, maxPer))
+	}
+	// P: PERMUTE of 3 / 4 variables over every arrival order
+	for i := 0; i < np3; i++ {
+		cases = append(cases, c15permute(krng, 3))
+	}
+	for i := 0; i < np4; i++ {
+		cases = append(cases, c15permute(krng, 4))
 	}
 	lines := make([]string, len(cases))
 	errs := make([]error, len(cases))
@@ -577,7 +602,7 @@ func runC15(tier string, seed uint64, o *Out) error {
 			return errs[i]
 		}
 		o.Line("%s", lines[i])
-		for _, t := range strings.Fields(cases[i].tag) {
+		for _, t := range strings.Fields(cases[i].tags()) {
 			o.Count(t)
 		}
 	}
